@@ -65,6 +65,12 @@ CLAIMED = {
  "C10": ("exploration", "harness-side buffer model (rows, bytes, per-partition) predicting limit-triggered flushes; time-trigger cases with thresholds far from both behaviours",
          "A sequential client ingests without Flush/Stop; whenever the harness's model of the buffers says a configured limit was reached, everything buffered must be answered with no further input; with only MaxBufferedTime active a batch must be answered on its own. Includes batches accepted before Start.",
          "Verdict threshold = expected instant + 10 s (correct ~0.1 s, broken = never).", "6/C10"),
+ "C13": ("fault_enumeration", "store-call fault enumeration over Merge from identical deep copies; classification by whether MetaStore.Update applied",
+         "Every single store-call position of each explored population's Merge (iterator start and yields, CreateFile, OpenFile, Seek, Read, Write, Close pre/post, Update, TombstoneFile pre/post) is failed in turn, then the cleanup calls each failure provoked, PRNG pairs, a context cancelled mid-merge and a concurrent second Merge. Committed runs must return nil or stats+ErrPostCommitCleanup with outputs referenced, sources unreferenced and tombstoned only after the commit; uncommitted runs must return an error, leave the MetaStore identical and never tombstone a source; visible rows never change.",
+         "Exhaustive over single positions of explored populations. MetaStore.Update atomic.", "6/C13"),
+ "C14": ("exploration", "ack/start-tick snapshot monitor over concurrent writers, merger and query loops (both shipped MetaStores, -race) + porcupine linearizability of MemoryMetaStore histories",
+         "Every finished query is checked against the set of rows acknowledged before its start tick (Err == nil => each exactly once; never a duplicate or a never-ingested row); MemDataStore really deletes so vanished files must surface as errors. Short concurrent Update/snapshot histories of MemoryMetaStore are checked linearizable with porcupine. The FileSystemDataStore-as-MetaStore variant reports the known merge-window finding by signature and anything else as a violation.",
+         "FS-variant attribution: store kind fs ∧ anomaly ∈ {duplicate, omission} ∧ every affected row belongs to sources of a merge whose call overlaps the query's lifetime.", "6/C14"),
 }
 
 NOT_YET = "check not built yet in this session (design in DESIGN.md section 6); not claimed until its monitor exists and is silent on the unchanged tree"
